@@ -128,6 +128,16 @@ def run_one(dst, nm, tier, unwind_is_violation=()):
         r["why"] = "kani did not reach a verdict: " + out[-1500:]
         r["failures"] = []
     r["raw_tail"] = out[-600:]
+    if r["status"] == "fail":
+        # ask Kani for the counterexample as a concrete playback test (values of every kani::any() in order)
+        try:
+            p2 = subprocess.run(cmd + ["-Z", "concrete-playback", "--concrete-playback=print"], cwd=dst, env=env, capture_output=True, text=True, timeout=min(to, 900))
+            o2 = p2.stdout
+            k = o2.find("Concrete playback unit test")
+            if k >= 0:
+                r["concrete"] = o2[k:k + 3000]
+        except Exception as e:  # best effort
+            r["concrete"] = None
     return r
 
 
